@@ -2,13 +2,13 @@
 (* Trace validation for C11.  The log is written by harness/sepproc.cpp, one line per call on the registry and per step of
    the parent:
      addtest (kind), setsep, setri,
-     begin (n, tty), teststart (i, kind, act, arg), fork (res, nfail), wait (out, arg, nfail),
+     begin (n, tty), teststart (i, kind, act, arg, rep), fork (res, nfail), wait (out, arg, nfail),
      endtest (msgs, waits, conts, left, inrunner), end (total, ran, ign, failed)
    where fork/wait lines carry the outcome the parent was given (scripted by the stubs, or observed from the real
    kernel) and `nfail' = failures recorded for the test before that call; `msgs' are the failures recorded for the test,
    classified from their text (kind "other" = unknown wording, only counted); `conts' = SIGCONTs the harmless child
    received (-1 = not observable, real forks); `n' = tests the registry holds at the start of the run, `kind' = kind of the
-   test the registry started (from its class), `inrunner' = some code of the test (plugin action, setup, body, teardown)
+   test the registry started (from its class), `rep' = failures the plugins' pre / post actions report about the test, `inrunner' = some code of the test (plugin action, setup, body, teardown)
    executed in the runner process, `ign' = tests counted as ignored.  The log must be a behaviour of SepProcess: every parent step allowed,
    the outcomes compatible with the child's behaviour (real forks), and every observation equal to the specification's. *)
 EXTENDS SepProcess, Json, IOUtils
@@ -37,7 +37,7 @@ TNext == \/ Is("addtest") /\ AddTest(E.kind)
          \/ Is("setsep") /\ (IF sep THEN UNCHANGED vars ELSE SetSep)
          \/ Is("setri") /\ (IF ri THEN UNCHANGED vars ELSE SetRunIgnored)
          \/ Is("begin") /\ Begin(E.tty) /\ E.n = Len(tests)
-         \/ Is("teststart") /\ StartTest([act |-> E.act, arg |-> E.arg]) /\ E.i = ti' /\ E.kind = tests[ti']
+         \/ Is("teststart") /\ StartTest([act |-> E.act, arg |-> E.arg, rep |-> E.rep]) /\ E.i = ti' /\ E.kind = tests[ti']
          \/ Is("fork") /\ SoFar /\ ForkBy(E.res)
          \/ Is("wait") /\ SoFar /\ WaitBy(E.out, E.arg)
          \/ Is("endtest") /\ EndTest /\ EndObs
@@ -46,14 +46,14 @@ TReset == /\ Is("reset") /\ pc' = "idle" /\ sep' = FALSE /\ ri' = FALSE /\ tests
           /\ conts' = 0 /\ tfail' = <<>> /\ ev' = <<>> /\ total' = 0 /\ ran' = 0 /\ plan' = AnyPlan /\ tty' = TRUE
 TSpec == TInit /\ [][TNext \/ TReset]_tvars
 Accepted == TLCGet("stats").diameter - 1 = Len(Tr)
-TInv == OncePerEvent /\ EventsAreFailures /\ Contained /\ StopsResumed /\ WaitsBounded /\ ChildNotLost /\ AllRun /\ RunCounts
+TInv == OncePerEvent /\ EventsAreFailures /\ Contained /\ ChildFailuresCount /\ StopsResumed /\ WaitsBounded /\ ChildNotLost /\ AllRun /\ RunCounts
 
 \* diagnostics: the same walk with the observations unbound, printing what the specification has after each line
 PNext == \/ Is("addtest") /\ AddTest(E.kind)
          \/ Is("setsep") /\ (IF sep THEN UNCHANGED vars ELSE SetSep)
          \/ Is("setri") /\ (IF ri THEN UNCHANGED vars ELSE SetRunIgnored)
          \/ Is("begin") /\ Begin(E.tty)
-         \/ Is("teststart") /\ StartTest([act |-> E.act, arg |-> E.arg])
+         \/ Is("teststart") /\ StartTest([act |-> E.act, arg |-> E.arg, rep |-> E.rep])
          \/ Is("fork") /\ ForkBy(E.res)
          \/ Is("wait") /\ WaitBy(E.out, E.arg)
          \/ Is("endtest") /\ EndTest
